@@ -1,7 +1,12 @@
 from common import T_COMMON
 
 CFG = dict(
+    gen=[dict(tool="facts", mode="c20.src", out="DelaunaySrc.lean")],
+    modules=["PolyVerif.Props.C20", "PolyVerif.Props.C20Src"],
     theorems=[
+        # Props/C20Src.lean: the hand model equals what is regenerated from bowyer_watson.go (engine F)
+        "orient_from_source", "inCircleDet_from_source", "ccw_from_source", "insideCirc_from_source",
+        "superTriangle_from_source", "superInit_from_source", "edges_from_source", "fanTri_from_source", "control_from_source",
         "vertices_check_sound", "indices_check_sound", "winding_check_sound", "delaunay_check_sound",
         "overlap_check_sound", "c20_checkers_sound", "inCircleDet_eq", "inCircleDet_on_circle",
         "inCircle_neg_of_inside", "circumcentre_exists", "inCircle_iff", "inCircleDet_smul",
@@ -35,6 +40,7 @@ CFG = dict(
     ],
     streams=[dict(name="c20", n=dict(quick=240, thorough=6000))],
     trusted=T_COMMON + [
+        "engine F extractor go/facts/c20.go (mode c20.src): reads bowyer_watson.go with go/ast and prints the predicate expressions, the SuperTriangle loop body/tail and the index patterns/constants as Lean (Gen/DelaunaySrc.lean); refuses any shape it does not recognise; its reading of math.Min/Max as the order min/max (goMin/goMax) and of the ±Inf start values as absorbed by the first point is trusted",
         "Driver/C20.lean: exact decoding of float64 bit patterns to m*2^e and scaling of one case to a common power of two "
         "(the checkers are run at Int; orient_smul / inCircleDet_smul justify the scaling); core Rat for the c20.bw model lines",
         "Model/Delaunay.lean is a hand transcription of bowyer_watson.go (tied by the c20.bw correspondence on small-integer inputs, "
